@@ -8,28 +8,31 @@ import hashlib
 import json
 import tempfile
 from pathlib import Path
+from types import FunctionType
 
 import numpy as np
 import pandas as pd
 import pyarrow as pa
 import pyarrow.parquet  # noqa: F401
 
+import c14_comp
 import vcomp
 from lenskit.data import Dataset, DatasetBuilder, ItemList
 from lenskit.diagnostics import PipelineError
 from lenskit.pipeline import Pipeline, PipelineBuilder
 from lenskit.pipeline.components import Component, fallback_on_none
-from lenskit.pipeline.config import PipelineComponent
+from lenskit.pipeline.config import PipelineComponent, PipelineConfig, hash_config
 from lenskit.pipeline.nodes import ComponentNode, InputNode, LiteralNode
 from lenskit.training import Trainable, TrainingOptions
 
 COMPS = {
     "inc": vcomp.inc, "neg": vcomp.neg, "add": vcomp.add, "mix3": vcomp.mix3, "twice": vcomp.Box.twice,
     "Scale": vcomp.Scale, "Affine": vcomp.Affine, "Learner": vcomp.Learner, "NoSettings": vcomp.NoSettings,
+    "Plain": c14_comp.Plain, "PlainLearner": c14_comp.PlainLearner,
 }
 
 
-LOOKUP_NAMES = ["a", "b", "c", "d", "c1", "c2", "c3", "c4", "c5", "c6", "scorer", "ranker", "m1", "m2", "al1", "rec", "zz"]
+LOOKUP_NAMES = ["a", "b", "c", "d", "c1", "c2", "c3", "c4", "c5", "c6", "scorer", "ranker", "m1", "m2", "al1", "rec", "zz", "k1", "k2"]
 
 
 def digest(obj) -> str:
@@ -41,6 +44,13 @@ def frame_digest(df) -> str:
     inside the dataset: the observer must never sort, fill or re-index it in place)"""
     return digest({"index": [str(x) for x in df.index.tolist()], "index_name": str(df.index.name), "dtypes": {str(c): str(t) for c, t in df.dtypes.items()},
                    "values": df.to_json(orient="split", date_unit="ns")})
+
+
+def config_content_hash(cfg) -> str:
+    "what PipelineBuilder.build_config stores as meta.hash: the hash of the configuration without its hash field"
+    c = cfg.model_copy(deep=True)
+    c.meta.hash = None
+    return hash_config(c)
 
 
 def guarded(f):
@@ -72,7 +82,8 @@ class World:
 
     # ---- observations -------------------------------------------------------------------------
     def obs_pipe(self, p: Pipeline, runs):
-        cfg = json.loads(p.config.model_dump_json())
+        doc0 = p.config.model_dump_json()     # before anything else is asked of the pipeline
+        cfg = json.loads(doc0)
         nodes = []
         for n in p.nodes():
             if isinstance(n, InputNode):
@@ -82,7 +93,7 @@ class World:
             else:
                 comp = n.component
                 st = {}
-                if isinstance(comp, vcomp.Learner) and comp.trained_on is not None:
+                if not isinstance(comp, FunctionType) and getattr(comp, "trained_on", None) is not None:
                     st = {"trained": comp.trained_on}
                 nodes.append([n.name, PipelineComponent.from_node(n).code, st])
         o = {
@@ -93,7 +104,9 @@ class World:
             "default": cfg.get("default"),
             # further observations for the oracle
             "hash": p.config_hash,
-            "config": p.config.model_dump_json(),
+            "config": doc0,
+            # the stored hash is the hash of the configuration as it stands
+            "hash_of_config": config_content_hash(p.config),
             "nic": {n.name: {k: v.name for k, v in p.node_input_connections(n).items()} for n in p.nodes()},
             "private_edges": {n: dict(e) for n, e in p._edges.items()},
             # what the pipeline answers when asked for a node by any of the strings the histories use as node names and aliases
@@ -101,8 +114,9 @@ class World:
         }
         j = next((i for i, q in enumerate(self.pipes) if q is p), None)
         toks = self.ptok[j] if j is not None and j < len(self.ptok) else {}
+        # every component that is an object with an identity of its own (Component instances and plain callable objects; functions are shared)
         o["inst"] = {n.name: [id(n.component), toks.get(n.name)] for n in p.nodes()
-                     if isinstance(n, ComponentNode) and isinstance(n.component, Component)}
+                     if isinstance(n, ComponentNode) and not isinstance(n.component, FunctionType)}
         res = []
         for inputs in runs:
             row = []
@@ -114,11 +128,32 @@ class World:
                         row.append([n.name, "!" + type(e).__name__])
             res.append(row)
         o["runs"] = res
+        # asking the pipeline for its wiring, its nodes and its results is reading: its configuration document is what it was
+        doc1 = p.config.model_dump_json()
+        o["read_changes"] = [] if doc1 == doc0 else ["wiring-lookups-and-runs"]
+        if doc1 != doc0:
+            o["end"] = {"config": doc1, "hash_of_config": config_content_hash(p.config)}
         return o
 
     def obs_dset(self, d: Dataset, deep: bool, save: bool = True):
-        sch = json.loads(d.schema.model_dump_json())
+        # the description of the dataset -- schema document and tables -- is read FIRST, before any accessor has been used on it (a dataset
+        # is first observed straight after it was built); after every group of read-only accessors below it is read again
+        doc = [d.schema.model_dump_json()]
+        sch = json.loads(doc[0])
         cont = d._data
+        tabs = [[(n, id(t)) for n, t in cont.tables.items()]]
+        reads = []
+
+        def after(what):
+            now, tnow = d.schema.model_dump_json(), [(n, id(t)) for n, t in d._data.tables.items()]
+            changed = now != doc[0]
+            if tnow != tabs[0]:
+                # other table objects: what counts is whether their contents are other
+                changed = changed or {n: table_digest(t) for n, t in d._data.tables.items()} != o["tables"]
+            if changed:
+                reads.append(what)
+            doc[0], tabs[0] = now, tnow
+
         o = {
             "meta": {"name": sch.get("name"), "default_interaction": sch.get("default_interaction")},
             "ents": {k: json.dumps(v, sort_keys=True) for k, v in sch["entities"].items()},
@@ -138,6 +173,7 @@ class World:
                             views[f"attr:{ecls}.{an}"] = "!" + type(e).__name__
                 except Exception as e:
                     views["ids:" + ecls] = "!" + type(e).__name__
+            after("entities")
             for rcls in sch["relationships"]:
                 try:
                     rs = d.relationships(rcls)
@@ -147,20 +183,26 @@ class World:
                         views["matrix:" + rcls] = digest([m.row.tolist(), m.col.tolist(), m.shape])
                 except Exception as e:
                     views["rel:" + rcls] = "!" + type(e).__name__
+            after("relationships")
+            views["interactions"] = guarded(lambda: d.interactions().name)
+            after("interactions")
             try:
                 views["users"] = d.users.ids().tolist()
             except Exception as e:
                 views["users"] = "!" + type(e).__name__
             views["items"] = d.items.ids().tolist()
-            # every field of the schema, as one document
-            views["schema-json"] = digest(d.schema.model_dump_json())
+            after("vocabularies")
+            # every field of the schema, as one document (as it was before any accessor ran)
+            views["schema-json"] = digest(sch)
             # derived / cached views: per-user and per-item statistics, counts, matrix forms with values, rows of the default matrix
             views["stats:user"] = guarded(lambda: frame_digest(d.user_stats()))
             views["stats:item"] = guarded(lambda: frame_digest(d.item_stats()))
+            after("stats")
             views["counts"] = {"users": guarded(lambda: int(d.user_count)), "items": guarded(lambda: int(d.item_count)),
                                "interactions": guarded(lambda: int(d.interaction_count)),
                                **{"e:" + c: guarded(lambda c=c: int(d.entities(c).count())) for c in sch["entities"]},
                                **{"r:" + c: guarded(lambda c=c: int(d.relationships(c).count())) for c in sch["relationships"]}}
+            after("counts")
             for rcls in sch["relationships"]:
                 if len(sch["relationships"][rcls]["entities"]) != 2:
                     continue
@@ -173,6 +215,8 @@ class World:
                                    "n": [int(ms.n_rows), int(ms.n_cols)], "rowptrs": np.asarray(cs.rowptrs).tolist(), "colinds": np.asarray(cs.colinds).tolist(),
                                    "rowstats": frame_digest(ms.row_stats()), "colstats": frame_digest(ms.col_stats())})
                 views["matrix-values:" + rcls] = guarded(mat)
+            views["matrix-default"] = guarded(lambda: digest(d.interaction_matrix(format="scipy", layout="coo").shape))
+            after("matrices")
 
             def rows():
                 out = []
@@ -181,6 +225,7 @@ class World:
                     out.append([u, None if il is None else ilist_digest(il)])
                 return digest(out)
             views["user-rows"] = guarded(rows)
+            after("user-rows")
             if save:
                 try:
                     with tempfile.TemporaryDirectory(prefix="c14-") as tmp:
@@ -194,7 +239,16 @@ class World:
                         views["saved"] = saved
                 except Exception as e:   # e.g. the summary writer on a cleared relationship class (not this property's subject)
                     views["saved"] = "!" + type(e).__name__
+                after("save")
             o["views"] = views
+            o["read_changes"] = reads
+            if reads:
+                # what the description had become when the observation ended
+                sch1 = json.loads(doc[0])
+                o["end"] = {"meta": {"name": sch1.get("name"), "default_interaction": sch1.get("default_interaction")},
+                            "ents": {k: json.dumps(v, sort_keys=True) for k, v in sch1["entities"].items()},
+                            "rels": {k: json.dumps(v, sort_keys=True) for k, v in sch1["relationships"].items()},
+                            "schema-json": digest(sch1)}
 
             def facts():
                 idle = None
@@ -247,6 +301,18 @@ class World:
         return op[field]
 
     @staticmethod
+    def literal_names(b, op):
+        "the names of the literal nodes the builder made for the literal values the operation wired (read from the builder's public node list)"
+        out = {}
+        for p_, v in (op.get("lits") or {}).items():
+            found = [n.name for n in b.nodes() if isinstance(n, LiteralNode) and n.name not in LOOKUP_NAMES
+                     and type(n.value) is type(v) and n.value == v]
+            if len(found) != 1:
+                raise AssertionError(f"literal node for {v!r}: {found}")
+            out[p_] = found[0]
+        return out
+
+    @staticmethod
     def sources(b, op):
         "input sources as node objects, looked up by node name or through an alias of the source"
         via = op.get("ins_via") or {}
@@ -265,7 +331,7 @@ class World:
                 self.pblds[op["b"]].literal(op["value"], name=op["name"])
             elif k in ("pb_add", "pb_replace"):
                 b = self.pblds[op["b"]]
-                kw = self.sources(b, op)
+                kw = {**self.sources(b, op), **(op.get("lits") or {})}
                 args = self.comp_args(op)
                 if k == "pb_add":
                     b.add_component(op["name"], *args, **kw)
@@ -277,9 +343,11 @@ class World:
                     self.btok[op["b"]].pop(op["name"], None)
                 else:
                     self.btok[op["b"]][op["name"]] = "ctor" if st == "class" else self.tok()
+                r["lits"] = self.literal_names(b, op)
             elif k == "pb_connect":
                 b = self.pblds[op["b"]]
-                b.connect(self.ref(b, op), **self.sources(b, op))
+                b.connect(self.ref(b, op), **self.sources(b, op), **(op.get("lits") or {}))
+                r["lits"] = self.literal_names(b, op)
             elif k == "pb_clear":
                 b = self.pblds[op["b"]]
                 b.clear_inputs(self.ref(b, op))
@@ -300,6 +368,23 @@ class World:
             elif k == "pclone":
                 self.pipes.append(self.pipes[op["p"]].clone())
                 self.ptok.append({n: self.tok() for n in self.ptok[op["p"]]})
+            elif k == "pfromconfig":
+                src = self.pipes[op["p"]]
+                how = op["how"]
+                if how == "pipeline":
+                    self.pipes.append(Pipeline.from_config(src.config))
+                elif how == "json":
+                    self.pipes.append(Pipeline.from_config(json.loads(src.config.model_dump_json())))
+                elif how == "builder":
+                    self.pblds.append(PipelineBuilder.from_config(src.config))
+                    # the builder holds instances made for it: every pipeline built from it holds these
+                    self.btok.append({n: self.tok() for n in self.ptok[op["p"]]})
+                elif how == "validate":
+                    PipelineConfig.model_validate(src.config)
+                else:
+                    raise RuntimeError("unknown op pfromconfig/" + how)
+                if how in ("pipeline", "json"):
+                    self.ptok.append({n: self.tok() for n in self.ptok[op["p"]]})
             elif k == "ptrain":
                 tgt = self.pipes[op["p"]]
                 # train only a pipeline whose trainable instances are SUPPOSED to be its own (whether they really are is
